@@ -33,3 +33,17 @@ package keeper
 //@ func (Keeper).SwapByDenom
 //@ ensures C04,C20/accept-only-enqueues: true
 //@ modifies module:amm
+
+// ---- C15: supply ---------------------------------------------------------------------------------
+//@ func (Keeper).MintPoolShareToAccount
+//@ forall d Str
+//@ mints C15/only-this-pools-share-token: d == types.GetPoolShareDenom(pool.PoolId)
+
+//@ func (Keeper).BurnPoolShareFromAccount
+//@ forall d Str
+//@ burns C15/only-this-pools-share-token: d == types.GetPoolShareDenom(pool.PoolId)
+
+// MatchAmmBalances mints/burns pool assets to force book = bank; it exists for the v9 store
+// migration only and must stay unreachable from messages, block processing and hooks.
+//@ func (Keeper).MatchAmmBalances
+//@ migration-only
